@@ -136,6 +136,34 @@ Proof.
   destruct (atb_loop _ _ _ _ _) as [tr err]. cbn [fst] in *. subst tr. reflexivity.
 Qed.
 
+(* the trailer list never holds an empty name, so a non-empty list joins to a non-empty value *)
+Lemma nhk_loop_len s : forall up, length (nhk_loop up s) = length s.
+Proof. induction s as [|c s IH]; intros up; cbn; [reflexivity|]. now rewrite IH. Qed.
+Lemma nhkv_nonempty n d : n <> [] -> normalizeHeaderKeyValidated n d <> [].
+Proof.
+  intros Hn. unfold normalizeHeaderKeyValidated. destruct d; [exact Hn|].
+  intros E. apply (f_equal (@length N)) in E. rewrite nhk_loop_len in E. destruct n; [contradiction|discriminate].
+Qed.
+Lemma trailer_names_nonempty nonorm v : Forall (fun n => n <> []) (trailer_names nonorm v).
+Proof.
+  unfold trailer_names. apply Forall_forall. intros x Hx. apply in_map_iff in Hx as (n & <- & Hn).
+  apply filter_In in Hn as [_ Hn]. apply andb_true_iff in Hn as [Hn _].
+  apply nhkv_nonempty. intros ->. discriminate.
+Qed.
+Lemma join_nonempty sep l : l <> [] -> Forall (fun n => n <> []) l -> join sep l <> [].
+Proof.
+  intros Hl Hf. destruct l as [|x l]; [contradiction|]. inversion Hf as [|? ? Hx _]; subst.
+  destruct x as [|b x]; [contradiction|]. destruct l; cbn; discriminate.
+Qed.
+Definition tr_ok (tr : list bytes) : Prop := tr = [] \/ jointr tr <> [].
+Lemma trailer_names_ok nonorm v : tr_ok (trailer_names nonorm v).
+Proof.
+  unfold tr_ok. destruct (trailer_names nonorm v) eqn:E; [now left|right].
+  rewrite jointr_join, <- E. apply join_nonempty; [rewrite E; discriminate|apply trailer_names_nonempty].
+Qed.
+Lemma tr_ok_opt1 tr : tr_ok tr -> match tr with [] => [] | _ => [jointr tr] end = opt1 (jointr tr).
+Proof. intros [->|H]; [reflexivity|]. destruct tr as [|t0 tr]; [reflexivity|]. destruct (jointr (t0 :: tr)); [contradiction|reflexivity]. Qed.
+
 (* ================= Part B: ResponseHeader ================= *)
 Definition sop_of (o : hop) : sop :=
   match o with HSet k v => SSet k v | HAdd k v => SAdd k v | HDel k => SDel k | HCopy => SCopy end.
@@ -167,6 +195,23 @@ Proof. unfold RAddExact. destruct (existsb _ _); [apply RSetExact_norm|reflexivi
 Lemma Rdel_norm r c : rflags (Rdel r c) = rflags r.
 Proof.
   unfold Rdel. repeat match goal with |- context[if beq c ?X then _ else _] => destruct (beq c X) end; reflexivity.
+Qed.
+
+Lemma RSetExact_tr r c v : tr_ok (htrailer (rh r)) -> tr_ok (htrailer (rh (RSetExact r c v))).
+Proof.
+  intros H. unfold RSetExact.
+  repeat match goal with |- context[if beq c ?X then _ else _] => destruct (beq c X) end; try exact H.
+  - destruct (parseContentLength v); exact H.
+  - destruct (beq strClose v); [exact H|]. cbn. unfold hResetConnectionClose. destruct (hclose (rh r)); exact H.
+  - unfold RSetTrailerBytes. rewrite hSetTrailer_names. cbn. apply trailer_names_ok.
+Qed.
+Lemma RAddExact_tr r c v : tr_ok (htrailer (rh r)) -> tr_ok (htrailer (rh (RAddExact r c v))).
+Proof. intros H. unfold RAddExact. destruct (existsb _ _); [now apply RSetExact_tr|exact H]. Qed.
+Lemma Rdel_tr r c : tr_ok (htrailer (rh r)) -> tr_ok (htrailer (rh (Rdel r c))).
+Proof.
+  intros H. unfold Rdel.
+  repeat match goal with |- context[if beq c ?X then _ else _] => destruct (beq c X) end; try exact H.
+  left. reflexivity.
 Qed.
 
 Lemma opt1_len v : (length (opt1 v) <= 1)%nat.
@@ -330,19 +375,28 @@ Qed.
 Definition ops_ok (specials : list bytes) (nonorm : bool) (ops : list hop) : Prop :=
   Forall (fun o => key_ok specials nonorm o = true /\ wf_op o) ops.
 
+Lemma rstep29_tr nonorm r o : hdisableNorm (rh r) = nonorm -> key_ok rspecials nonorm o = true ->
+  tr_ok (htrailer (rh r)) -> tr_ok (htrailer (rh (rstep29 r o))).
+Proof.
+  intros Hd Hk H. rewrite (rstep29_exact nonorm r o Hd Hk).
+  destruct o; [now apply RSetExact_tr|now apply RAddExact_tr|now apply Rdel_tr|exact H].
+Qed.
+
 Theorem Rrun_sim nonorm nodefct ops : ops_ok rspecials nonorm ops ->
   let r := fold_left rstep29 ops (rinit nonorm nodefct) in
-  Rsim nonorm r (srun HResp nonorm (map sop_of ops)) /\ hnoDefCT (rh r) = nodefct.
+  Rsim nonorm r (srun HResp nonorm (map sop_of ops)) /\ hnoDefCT (rh r) = nodefct /\ tr_ok (htrailer (rh r)).
 Proof.
   intros Hok. unfold srun.
   assert (G : forall ops r m, ops_ok rspecials nonorm ops -> Rsim nonorm r m -> hnoDefCT (rh r) = nodefct ->
+            tr_ok (htrailer (rh r)) ->
             Rsim nonorm (fold_left rstep29 ops r) (fold_left (sstep HResp nonorm) (map sop_of ops) m)
-            /\ hnoDefCT (rh (fold_left rstep29 ops r)) = nodefct).
-  { induction ops0 as [|o ops0 IH]; intros r m Hops HS Hn; [split; assumption|].
-    apply Forall_cons_iff in Hops as [[Hk Hw] Hrest]. cbn [fold_left map]. apply IH; [assumption| |].
+            /\ hnoDefCT (rh (fold_left rstep29 ops r)) = nodefct /\ tr_ok (htrailer (rh (fold_left rstep29 ops r)))).
+  { induction ops0 as [|o ops0 IH]; intros r m Hops HS Hn Htr; [split; [assumption|split; assumption]|].
+    apply Forall_cons_iff in Hops as [[Hk Hw] Hrest]. cbn [fold_left map]. apply IH; [assumption| | |].
     - apply Rstep_sim; assumption.
-    - rewrite <- Hn. apply rflags_nodef. apply (rstep29_flags nonorm); [apply HS|assumption]. }
-  apply G; [assumption|apply Rsim_init|reflexivity].
+    - rewrite <- Hn. apply rflags_nodef. apply (rstep29_flags nonorm); [apply HS|assumption].
+    - apply (rstep29_tr nonorm); [apply HS|assumption|assumption]. }
+  apply G; [assumption|apply Rsim_init|reflexivity|left; reflexivity].
 Qed.
 
 (* ---- the response getters as functions of the stored values ---- *)
@@ -376,12 +430,6 @@ Proof.
   apply peekArg_peekAll.
 Qed.
 
-(* PeekAll: the known finding peekall-unset-special-empty-value is part of the statement *)
-Definition k2cls (t : htype) (c : bytes) : bool :=
-  match cls_of t c with CNum | CJar | CSetCookie | CTrailer => true | _ => false end.
-Definition k2adjust (t : htype) (c : bytes) (l : list bytes) : list bytes :=
-  match l with [] => if k2cls t c then [[]] else [] | _ => l end.
-
 Lemma cls_resp_cases c :
   (c = strContentType /\ cls_of HResp c = CSingle) \/ (c = strContentEncoding /\ cls_of HResp c = CSingle) \/
   (c = strServer /\ cls_of HResp c = CSingle) \/ (c = strConnection /\ cls_of HResp c = CConn) \/
@@ -409,52 +457,45 @@ Proof.
   destruct Hcl as [-> | ->]; reflexivity.
 Qed.
 
-Lemma RpeekAll_rvals r c :
+Lemma RpeekAll_rvals r c : tr_ok (htrailer (rh r)) ->
   RpeekAll r c =
   if beq c strContentType then opt1 (RContentType r)
-  else if beq c strContentLength then [first_or [] (rvals r c)]
-  else if beq c strSetCookie then [join semiSpace (rvals r c)]
-  else if beq c strTrailer then [first_or [] (rvals r c)]
+  else if beq c strSetCookie then match rvals r c with [] => [] | l => [join semiSpace l] end
   else rvals r c.
 Proof.
-  unfold RpeekAll, rvals.
+  intros Htr. unfold RpeekAll, rvals.
   beq_case c strContentType E1; [reflexivity|].
   beq_case c strContentEncoding E2. { subst c. reflexivity. }
   beq_case c strServer E3. { subst c. reflexivity. }
   beq_case c strConnection E4. { subst c. reflexivity. }
-  beq_case c strContentLength E5. { now rewrite opt1_first. }
-  beq_case c strSetCookie E6. { now rewrite resp_cookie_join. }
-  beq_case c strTrailer E7. { now rewrite opt1_first. }
+  beq_case c strContentLength E5. { subst c. reflexivity. }
+  beq_case c strSetCookie E6. { destruct (hcookies (rh r)) as [|ck cs] eqn:Ec; [reflexivity|]. now rewrite resp_cookie_join. }
+  beq_case c strTrailer E7. { rewrite <- (tr_ok_opt1 _ Htr). destruct (htrailer (rh r)); reflexivity. }
   reflexivity.
 Qed.
 
-Lemma RpeekAll_spec nonorm r m c : Rsim nonorm r m ->
-  RpeekAll r c = k2adjust HResp c (spec_peek_all HResp (hnoDefCT (rh r)) m c).
+Lemma RpeekAll_spec nonorm r m c : Rsim nonorm r m -> tr_ok (htrailer (rh r)) ->
+  RpeekAll r c = spec_peek_all HResp (hnoDefCT (rh r)) m c.
 Proof.
-  intros (_ & Hv & Hc & Hig). rewrite RpeekAll_rvals. unfold k2adjust, k2cls, spec_peek_all.
+  intros (_ & Hv & Hc & Hig) Htr. rewrite (RpeekAll_rvals r c Htr). unfold spec_peek_all.
   destruct (cls_resp_cases c) as [[-> ->]|[[-> ->]|[[-> ->]|[[-> ->]|[[-> ->]|[[-> ->]|[[-> ->]|[Hn Hcl]]]]]]]].
   - rewrite beq_refl. rewrite <- Hv. unfold RContentType, rvals, default_of. rewrite beq_refl. cbn [andb].
     destruct (hct (rh r)); [destruct (hnoDefCT (rh r))|]; reflexivity.
-  - change (beq strContentEncoding strContentType) with false. change (beq strContentEncoding strContentLength) with false.
-    change (beq strContentEncoding strSetCookie) with false. change (beq strContentEncoding strTrailer) with false. cbv iota.
+  - change (beq strContentEncoding strContentType) with false. change (beq strContentEncoding strSetCookie) with false. cbv iota.
     rewrite <- Hv. unfold rvals. cbn. destruct (rce r); reflexivity.
-  - change (beq strServer strContentType) with false. change (beq strServer strContentLength) with false.
-    change (beq strServer strSetCookie) with false. change (beq strServer strTrailer) with false. cbv iota.
+  - change (beq strServer strContentType) with false. change (beq strServer strSetCookie) with false. cbv iota.
     rewrite <- Hv. unfold rvals. cbn. destruct (rserver r); reflexivity.
-  - change (beq strConnection strContentType) with false. change (beq strConnection strContentLength) with false.
-    change (beq strConnection strSetCookie) with false. change (beq strConnection strTrailer) with false. cbv iota.
-    rewrite Hv. destruct (mm_vals m strConnection); reflexivity.
-  - change (beq strContentLength strContentType) with false. rewrite beq_refl. cbv iota.
+  - change (beq strConnection strContentType) with false. change (beq strConnection strSetCookie) with false. cbv iota.
+    apply Hv.
+  - change (beq strContentLength strContentType) with false. change (beq strContentLength strSetCookie) with false. cbv iota.
     rewrite <- Hv. unfold rvals. cbn. destruct (hclb (rh r)); reflexivity.
-  - change (beq strSetCookie strContentType) with false. change (beq strSetCookie strContentLength) with false. rewrite beq_refl. cbv iota.
-    rewrite Hv. destruct (mm_vals m strSetCookie); reflexivity.
-  - change (beq strTrailer strContentType) with false. change (beq strTrailer strContentLength) with false.
-    change (beq strTrailer strSetCookie) with false. rewrite beq_refl. cbv iota.
+  - change (beq strSetCookie strContentType) with false. rewrite beq_refl. cbv iota. now rewrite Hv.
+  - change (beq strTrailer strContentType) with false. change (beq strTrailer strSetCookie) with false. cbv iota.
     rewrite <- Hv. unfold rvals. cbn. destruct (jointr (htrailer (rh r))); reflexivity.
-  - cbn [existsb] in Hn. repeat (apply orb_false_iff in Hn as [?E Hn]). rewrite E, E3, E4, E5. rewrite Hv.
+  - cbn [existsb] in Hn. repeat (apply orb_false_iff in Hn as [?E Hn]). rewrite E, E4. rewrite Hv.
     assert (Hd : default_of HResp (hnoDefCT (rh r)) c = []) by (unfold default_of; now rewrite E).
     destruct Hcl as [Hcl | Hcl]; rewrite Hcl.
-    + destruct (mm_vals m c); reflexivity.
+    + reflexivity.
     + rewrite Hd. rewrite (Hig c) by assumption. reflexivity.
 Qed.
 
@@ -536,7 +577,7 @@ Proof.
   beq_case c strContentType E1; [split; [exact Hnc|exact Hun]|].
   beq_case c strContentLength E2; [destruct (parseContentLength v); split; assumption|].
   beq_case c strConnection E4.
-  { subst c. destruct (beq strClose v); [split; assumption|]. unfold hResetConnectionClose.
+  { subst c. destruct (beq strClose v); [split; [cbn; apply no_cookie_del; exact Hnc|exact Hun]|]. unfold hResetConnectionClose.
     destruct (hclose (qh q)); (split; [cbn; apply no_cookie_setArg; try reflexivity; try apply no_cookie_del; exact Hnc|exact Hun]). }
   beq_case c strCookie E5.
   { destruct (collect_fields q Hnc) as (H1 & _ & _ & _ & H5). cbv zeta. split.
@@ -565,6 +606,24 @@ Proof.
   intros Hnc Hun. unfold Qdel.
   repeat match goal with |- context[if beq c ?X then _ else _] => destruct (beq c X) end;
     (split; [cbn; apply no_cookie_del; exact Hnc|cbn; try exact Hun; reflexivity]).
+Qed.
+
+Lemma QSetExact_tr q c v : no_cookie_hh (hh (qh q)) -> tr_ok (htrailer (qh q)) -> tr_ok (htrailer (qh (QSetExact q c v))).
+Proof.
+  intros Hnc H. unfold QSetExact.
+  repeat match goal with |- context[if beq c ?X then _ else _] => destruct (beq c X) end; try exact H.
+  - destruct (parseContentLength v); exact H.
+  - destruct (beq strClose v); [exact H|]. cbn. unfold hResetConnectionClose. destruct (hclose (qh q)); exact H.
+  - destruct (collect_fields q Hnc) as (H1 & _). cbv zeta. cbn. rewrite H1. exact H.
+  - unfold QSetTrailerBytes. rewrite hSetTrailer_names. cbn. apply trailer_names_ok.
+Qed.
+Lemma QAddExact_tr q c v : no_cookie_hh (hh (qh q)) -> tr_ok (htrailer (qh q)) -> tr_ok (htrailer (qh (QAddExact q c v))).
+Proof. intros Hnc H. unfold QAddExact. destruct (existsb _ _); [now apply QSetExact_tr|exact H]. Qed.
+Lemma Qdel_tr q c : tr_ok (htrailer (qh q)) -> tr_ok (htrailer (qh (Qdel q c))).
+Proof.
+  intros H. unfold Qdel.
+  repeat match goal with |- context[if beq c ?X then _ else _] => destruct (beq c X) end; try exact H.
+  left. reflexivity.
 Qed.
 
 Lemma Qput_same nonorm (add : bool) q m c v :
@@ -724,24 +783,33 @@ Definition qevstep (q : req) (e : qev) : req := match e with QOp o => qstep29 q 
 Definition qev_ops (l : list qev) : list hop := flat_map (fun e => match e with QOp o => [o] | QIter => [] end) l.
 Definition qev_ok (nonorm : bool) (l : list qev) : Prop := ops_ok qspecials nonorm (qev_ops l).
 
+Lemma qstep29_tr nonorm q o : hdisableNorm (qh q) = nonorm -> qdisableSpecial q = false -> no_cookie_hh (hh (qh q)) ->
+  key_ok qspecials nonorm o = true -> tr_ok (htrailer (qh q)) -> tr_ok (htrailer (qh (qstep29 q o))).
+Proof.
+  intros Hd Hds Hnc Hk H. rewrite (qstep29_exact nonorm q o Hd Hds Hk).
+  destruct o; [now apply QSetExact_tr|now apply QAddExact_tr|now apply Qdel_tr|exact H].
+Qed.
+
 Theorem Qrun_sim nonorm nodefct evs : qev_ok nonorm evs ->
   let q := fold_left qevstep evs (qinit nonorm nodefct) in
-  Qsim nonorm q (srun HReq nonorm (map sop_of (qev_ops evs))) /\ hnoDefCT (qh q) = nodefct.
+  Qsim nonorm q (srun HReq nonorm (map sop_of (qev_ops evs))) /\ hnoDefCT (qh q) = nodefct /\ tr_ok (htrailer (qh q)).
 Proof.
   intros Hok. unfold srun.
-  assert (G : forall evs q m, qev_ok nonorm evs -> Qsim nonorm q m -> hnoDefCT (qh q) = nodefct ->
+  assert (G : forall evs q m, qev_ok nonorm evs -> Qsim nonorm q m -> hnoDefCT (qh q) = nodefct -> tr_ok (htrailer (qh q)) ->
             Qsim nonorm (fold_left qevstep evs q) (fold_left (sstep HReq nonorm) (map sop_of (qev_ops evs)) m)
-            /\ hnoDefCT (qh (fold_left qevstep evs q)) = nodefct).
-  { induction evs0 as [|e evs0 IH]; intros q m Hops HS Hn; [split; assumption|].
+            /\ hnoDefCT (qh (fold_left qevstep evs q)) = nodefct /\ tr_ok (htrailer (qh (fold_left qevstep evs q)))).
+  { induction evs0 as [|e evs0 IH]; intros q m Hops HS Hn Htr; [split; [assumption|split; assumption]|].
     destruct e as [o|]; cbn [fold_left qev_ops flat_map map app qevstep].
     - unfold qev_ok in Hops. cbn [qev_ops flat_map app] in Hops. apply Forall_cons_iff in Hops as [[Hk Hw] Hrest].
-      apply IH; [exact Hrest|apply Qstep_sim; assumption|].
-      destruct HS as (Hd & Hds & _ & _ & _ & Hnc & _).
-      pose proof (qstep29_flags nonorm q o Hd Hds Hnc Hk) as Hf. unfold qflags in Hf. congruence.
-    - apply IH; [exact Hops|apply Qcollect_sim; exact HS|].
-      destruct HS as (_ & _ & _ & _ & _ & Hnc & _).
-      pose proof (Qcollect_flags q Hnc) as Hf. unfold qflags in Hf. cbn [QAll fst]. congruence. }
-  apply G; [assumption|apply Qsim_init|reflexivity].
+      pose proof HS as (Hd & Hds & _ & _ & _ & Hnc & _).
+      apply IH; [exact Hrest|apply Qstep_sim; assumption| |].
+      + pose proof (qstep29_flags nonorm q o Hd Hds Hnc Hk) as Hf. unfold qflags in Hf. congruence.
+      + apply (qstep29_tr nonorm); assumption.
+    - pose proof HS as (_ & _ & _ & _ & _ & Hnc & _).
+      apply IH; [exact Hops|apply Qcollect_sim; exact HS| |].
+      + pose proof (Qcollect_flags q Hnc) as Hf. unfold qflags in Hf. cbn [QAll fst]. congruence.
+      + cbn [QAll fst]. destruct (collect_fields q Hnc) as (H1 & _). rewrite H1. exact Htr. }
+  apply G; [assumption|apply Qsim_init|reflexivity|left; reflexivity].
 Qed.
 
 (* ---- the request getters as functions of the stored values ---- *)
@@ -802,30 +870,30 @@ Proof.
     rewrite Hq, peekArg_peekAll. destruct Hcl as [-> | ->]; reflexivity.
 Qed.
 
-Lemma QpeekAll_spec nonorm q m c nodefct : Qsim nonorm q m ->
-  QpeekAll q c = if beq c strCookie && negb (qcookiesCollected q) then spec_peek_all HReq nodefct m c
-                 else k2adjust HReq c (spec_peek_all HReq nodefct m c).
+Lemma QpeekAll_spec nonorm q m c nodefct : Qsim nonorm q m -> tr_ok (htrailer (qh q)) ->
+  QpeekAll q c = spec_peek_all HReq nodefct m c.
 Proof.
-  intros (_ & Hds & Hv & Hc & Hig & Hnc & Hun). unfold k2adjust, k2cls, spec_peek_all. rewrite <- Hv.
+  intros (_ & Hds & Hv & Hc & Hig & Hnc & Hun) Htr. unfold spec_peek_all. rewrite <- Hv.
   unfold QpeekAll, QHost, QContentType, QUserAgent. rewrite Hds.
   destruct (cls_req_cases c) as [[-> ->]|[[-> ->]|[[-> ->]|[[-> ->]|[[-> ->]|[[-> ->]|[[-> ->]|[Hn Hcl]]]]]]]].
   - change (qvals q strHost) with (opt1 (qhost q)). cbn. destruct (qhost q); reflexivity.
   - change (qvals q strContentType) with (opt1 (hct (qh q))). cbn. destruct (hct (qh q)); reflexivity.
   - change (qvals q strUserAgent) with (opt1 (qua q)). cbn. destruct (qua q); reflexivity.
   - change (qvals q strConnection) with (if hclose (qh q) then [strClose] else peekAllArgs (hh (qh q)) strConnection).
-    cbn -[peekAllArgs]. destruct (hclose (qh q)); [reflexivity|]. destruct (peekAllArgs _ _); reflexivity.
+    cbn -[peekAllArgs]. reflexivity.
   - change (qvals q strContentLength) with (opt1 (hclb (qh q))). cbn. destruct (hclb (qh q)); reflexivity.
   - change (qvals q strCookie) with (map cookie_str (hcookies (qh q))). cbn -[peekAllArgs appendRequestCookieBytes join].
     destruct (qcookiesCollected q) eqn:Ec; cbn [negb].
-    + rewrite req_cookie_join. cbn [app]. destruct (map cookie_str (hcookies (qh q))); reflexivity.
+    + destruct (hcookies (qh q)) as [|ck cs] eqn:Eck; [reflexivity|]. now rewrite req_cookie_join.
     + rewrite (Hun eq_refl), (no_cookie_peekAll _ Hnc). reflexivity.
   - change (qvals q strTrailer) with (opt1 (jointr (htrailer (qh q)))). cbn -[appendTrailerBytes jointr].
-    fold (jointr (htrailer (qh q))). destruct (jointr (htrailer (qh q))); reflexivity.
+    rewrite <- (tr_ok_opt1 _ Htr). destruct (htrailer (qh q)); [reflexivity|]. cbn -[appendTrailerBytes jointr].
+    unfold jointr. destruct (appendTrailerBytes _ _ _); reflexivity.
   - cbn [existsb] in Hn. repeat (apply orb_false_iff in Hn as [?E Hn]).
-    rewrite E, E0, E1, E2, E3, E4, E5. cbn [andb].
+    rewrite E, E0, E1, E2, E3, E4, E5.
     assert (Hq : qvals q c = peekAllArgs (hh (qh q)) c) by (unfold qvals; now rewrite E, E0, E1, E2, E3, E4, E5).
     rewrite Hq. destruct Hcl as [Hcl | Hcl]; rewrite Hcl.
-    + destruct (peekAllArgs _ _); reflexivity.
+    + reflexivity.
     + rewrite <- Hq, Hv, (Hig c Hcl). reflexivity.
 Qed.
 
@@ -844,16 +912,16 @@ Theorem resp_refines_spec nonorm nodefct ops k : ops_ok rspecials nonorm ops ->
   let m := srun HResp nonorm (map sop_of ops) in
   let c := canon nonorm k in
   RPeek r k = spec_peek HResp nodefct m c
-  /\ RPeekAll r k = k2adjust HResp c (spec_peek_all HResp nodefct m c)
+  /\ RPeekAll r k = spec_peek_all HResp nodefct m c
   /\ RContentType r = spec_peek HResp nodefct m strContentType
   /\ RContentEncoding r = spec_peek HResp nodefct m strContentEncoding
   /\ RServer r = spec_peek HResp nodefct m strServer.
 Proof.
-  intros Hok r m c. destruct (Rrun_sim nonorm nodefct ops Hok) as [HS Hn]. fold r m in HS, Hn.
+  intros Hok r m c. destruct (Rrun_sim nonorm nodefct ops Hok) as (HS & Hn & Htr). fold r m in HS, Hn, Htr.
   pose proof HS as (Hd & _). unfold RPeek, RPeekAll. rewrite Hd. fold (canon nonorm k). fold c.
   rewrite <- Hn. repeat split.
   - apply (Rpeek_spec nonorm); exact HS.
-  - apply (RpeekAll_spec nonorm); exact HS.
+  - apply (RpeekAll_spec nonorm); assumption.
   - apply (Rpeek_spec nonorm r m strContentType HS).
   - apply (Rpeek_spec nonorm r m strContentEncoding HS).
   - apply (Rpeek_spec nonorm r m strServer HS).
@@ -866,14 +934,14 @@ Theorem resp_other_names_untouched nonorm nodefct ops o k' : ops_ok rspecials no
 Proof.
   intros Hok r Hne.
   assert (Hok1 : ops_ok rspecials nonorm ops) by (apply Forall_app in Hok; tauto).
-  destruct (Rrun_sim nonorm nodefct ops Hok1) as [HS Hn]. fold r in HS, Hn.
-  destruct (Rrun_sim nonorm nodefct (ops ++ [o]) Hok) as [HS' Hn'].
-  rewrite fold_left_app in HS', Hn'. cbn [fold_left] in HS', Hn'. fold r in HS', Hn'.
+  destruct (Rrun_sim nonorm nodefct ops Hok1) as (HS & Hn & Htr). fold r in HS, Hn, Htr.
+  destruct (Rrun_sim nonorm nodefct (ops ++ [o]) Hok) as (HS' & Hn' & Htr').
+  rewrite fold_left_app in HS', Hn', Htr'. cbn [fold_left] in HS', Hn', Htr'. fold r in HS', Hn', Htr'.
   rewrite map_app in HS'. unfold srun in HS'. rewrite fold_left_app in HS'. cbn [map fold_left] in HS'.
   fold (srun HResp nonorm (map sop_of ops)) in HS'. set (m := srun HResp nonorm (map sop_of ops)) in *.
   pose proof HS as (Hd & _). pose proof HS' as (Hd' & _).
   unfold RPeekAll, RPeek. rewrite Hd, Hd'.
-  rewrite (RpeekAll_spec nonorm _ _ _ HS'), (RpeekAll_spec nonorm _ _ _ HS), (Rpeek_spec nonorm _ _ _ HS'), (Rpeek_spec nonorm _ _ _ HS).
+  rewrite (RpeekAll_spec nonorm _ _ _ HS' Htr'), (RpeekAll_spec nonorm _ _ _ HS Htr), (Rpeek_spec nonorm _ _ _ HS'), (Rpeek_spec nonorm _ _ _ HS).
   rewrite Hn, Hn'.
   assert (Hm : mm_vals (sstep HResp nonorm m (sop_of o)) (getHeaderKeyBytes k' nonorm) = mm_vals m (getHeaderKeyBytes k' nonorm)).
   { apply sstep_other. destruct o; cbn [sop_of op_key] in *; exact Hne. }
@@ -886,17 +954,16 @@ Theorem req_refines_spec nonorm nodefct evs k : qev_ok nonorm evs ->
   let m := srun HReq nonorm (map sop_of (qev_ops evs)) in
   let c := canon nonorm k in
   QPeek q k = spec_peek HReq nodefct m c
-  /\ QPeekAll q k = (if beq c strCookie && negb (qcookiesCollected q) then spec_peek_all HReq nodefct m c
-                     else k2adjust HReq c (spec_peek_all HReq nodefct m c))
+  /\ QPeekAll q k = spec_peek_all HReq nodefct m c
   /\ QContentType q = spec_peek HReq nodefct m strContentType
   /\ QHost q = spec_peek HReq nodefct m strHost
   /\ QUserAgent q = spec_peek HReq nodefct m strUserAgent.
 Proof.
-  intros Hok q m c. destruct (Qrun_sim nonorm nodefct evs Hok) as [HS Hn]. fold q m in HS, Hn.
+  intros Hok q m c. destruct (Qrun_sim nonorm nodefct evs Hok) as (HS & Hn & Htr). fold q m in HS, Hn, Htr.
   pose proof HS as (Hd & Hds & _). unfold QPeek, QPeekAll. rewrite Hd. fold (canon nonorm k). fold c.
   repeat split.
   - apply (Qpeek_spec nonorm); exact HS.
-  - apply (QpeekAll_spec nonorm); exact HS.
+  - apply (QpeekAll_spec nonorm); assumption.
   - rewrite <- (Qpeek_spec nonorm q m strContentType nodefct HS). reflexivity.
   - rewrite <- (Qpeek_spec nonorm q m strHost nodefct HS). reflexivity.
   - rewrite <- (Qpeek_spec nonorm q m strUserAgent nodefct HS). reflexivity.
@@ -928,31 +995,20 @@ Proof.
   assert (Hko : key_ok qspecials nonorm o = true).
   { unfold qev_ok, qev_ops in Hok. rewrite flat_map_app in Hok. apply Forall_app in Hok as [_ H]. cbn in H.
     apply Forall_cons_iff in H. tauto. }
-  destruct (Qrun_sim nonorm nodefct evs Hok1) as [HS Hn]. fold q in HS, Hn.
-  destruct (Qrun_sim nonorm nodefct (evs ++ [QOp o]) Hok) as [HS' Hn'].
-  rewrite fold_left_app in HS', Hn'. cbn [fold_left qevstep] in HS', Hn'. fold q in HS', Hn'.
+  destruct (Qrun_sim nonorm nodefct evs Hok1) as (HS & Hn & Htr). fold q in HS, Hn, Htr.
+  destruct (Qrun_sim nonorm nodefct (evs ++ [QOp o]) Hok) as (HS' & Hn' & Htr').
+  rewrite fold_left_app in HS', Hn', Htr'. cbn [fold_left qevstep] in HS', Hn', Htr'. fold q in HS', Hn', Htr'.
   unfold qev_ops in HS'. rewrite flat_map_app, map_app in HS'. unfold srun in HS'. rewrite fold_left_app in HS'.
   cbn [flat_map app map fold_left] in HS'.
   fold (qev_ops evs) in HS'. fold (srun HReq nonorm (map sop_of (qev_ops evs))) in HS'.
   set (m := srun HReq nonorm (map sop_of (qev_ops evs))) in *.
   pose proof HS as (Hd & Hds & _). pose proof HS' as (Hd' & _).
   unfold QPeekAll, QPeek. rewrite Hd, Hd'.
-  rewrite (QpeekAll_spec nonorm _ _ _ nodefct HS'), (QpeekAll_spec nonorm _ _ _ nodefct HS),
+  rewrite (QpeekAll_spec nonorm _ _ _ nodefct HS' Htr'), (QpeekAll_spec nonorm _ _ _ nodefct HS Htr),
           (Qpeek_spec nonorm _ _ _ nodefct HS'), (Qpeek_spec nonorm _ _ _ nodefct HS).
   assert (Hm : mm_vals (sstep HReq nonorm m (sop_of o)) (getHeaderKeyBytes k' nonorm) = mm_vals m (getHeaderKeyBytes k' nonorm)).
   { apply sstep_other. destruct o; cbn [sop_of op_key] in *; exact Hne. }
-  rewrite (spec_peek_all_ext _ _ _ _ _ Hm), (spec_peek_ext _ _ _ _ _ Hm). split; [|reflexivity].
-  destruct (beq (getHeaderKeyBytes k' nonorm) strCookie) eqn:Ec; [|reflexivity].
-  apply beq_eq in Ec. cbn [andb].
-  assert (Hcol : qcookiesCollected (qstep29 q o) = qcookiesCollected q).
-  { rewrite (qstep29_exact nonorm q o Hd Hds Hko).
-    change (getHeaderKeyBytes k' nonorm) with (canon nonorm k') in Ec.
-    destruct o as [k v|k v|k|]; cbn [op_key] in Hne.
-    - apply QSetExact_collected. congruence.
-    - apply QAddExact_collected. congruence.
-    - apply Qdel_collected.
-    - reflexivity. }
-  now rewrite Hcol.
+  rewrite (spec_peek_all_ext _ _ _ _ _ Hm), (spec_peek_ext _ _ _ _ _ Hm). split; reflexivity.
 Qed.
 
 (* --- All() / VisitAll / PeekKeys / Len for ordinary names --- *)
